@@ -42,6 +42,8 @@
 #define MAXT 256
 #define MAXROOT 8
 #define WATCHDOG_MS 20000
+#define EMU_OK 100000          /* "faulting" value meaning: the skipped call returns 0 */
+#define FICLONE_REQ 0x40049409UL
 
 struct thr {
   pid_t tid;
@@ -373,12 +375,13 @@ static struct thr *handle(pid_t tid, int status) {
         if (t->faulting) {
           struct user_regs_struct regs;
           ptrace(PTRACE_GETREGS, tid, 0, &regs);
-          regs.rax = (unsigned long long)(-(long long)t->faulting);
+          long long want = t->faulting == EMU_OK ? 0 : -(long long)t->faulting;
+          regs.rax = (unsigned long long)want;
           ptrace(PTRACE_SETREGS, tid, 0, &regs);
-          rv = -(long long)t->faulting;
+          rv = want;
         }
         snprintf(done_json, sizeof done_json, "{\"call\":%s,\"ret\":%lld,\"faulted\":%s}", t->at, rv,
-                 t->faulting ? "true" : "false");
+                 (t->faulting && t->faulting != EMU_OK) ? "true" : "false");
         t->stepping = 0;
         t->faulting = 0;
         return t;   // caller continues it
@@ -547,6 +550,41 @@ int main(int argc, char **argv) {
         ptrace(PTRACE_GETREGS, h->tid, 0, &regs);
         regs.rdx = (unsigned long long)v;
         ptrace(PTRACE_SETREGS, h->tid, 0, &regs);
+      }
+      cont(h->tid, 0);
+      drive(p, 1);
+      continue;
+    }
+    if (!strcmp(cmd, "emuclone")) {
+      // the held call must be ioctl(dest_fd, FICLONE, src_fd): this file system cannot do it, so
+      // the tracer copies src to dest itself, skips the call and makes it return 0
+      int p = atoi(strtok(NULL, " "));
+      struct thr *h = NULL;
+      if (!procalive[p] || !proc_has_held(p, &h)) { reply(p, NULL, 0); continue; }
+      struct user_regs_struct regs;
+      ptrace(PTRACE_GETREGS, h->tid, 0, &regs);
+      int ok = 0;
+      if (regs.orig_rax == SYS_ioctl && (unsigned long)regs.rsi == FICLONE_REQ) {
+        char sp[PATH_MAX], dp[PATH_MAX];
+        snprintf(sp, sizeof sp, "/proc/%d/fd/%d", h->tid, (int)regs.rdx);
+        snprintf(dp, sizeof dp, "/proc/%d/fd/%d", h->tid, (int)regs.rdi);
+        int sfd = open(sp, O_RDONLY), dfd = open(dp, O_WRONLY | O_TRUNC);
+        if (sfd >= 0 && dfd >= 0) {
+          char buf[65536];
+          ssize_t k;
+          ok = 1;
+          while ((k = read(sfd, buf, sizeof buf)) > 0)
+            if (write(dfd, buf, (size_t)k) != k) { ok = 0; break; }
+        }
+        if (sfd >= 0) close(sfd);
+        if (dfd >= 0) close(dfd);
+      }
+      h->held = 0;
+      h->stepping = 1;
+      if (ok) {
+        regs.orig_rax = (unsigned long long)-1;
+        ptrace(PTRACE_SETREGS, h->tid, 0, &regs);
+        h->faulting = EMU_OK;
       }
       cont(h->tid, 0);
       drive(p, 1);
